@@ -35,7 +35,7 @@ func TestC16Histories(t *testing.T) {
 			names = genfont.NamesWild
 		}
 		c := genfont.Gen(genfont.Opts{Kind: kind, MaxGlyphs: rapid.SampledFrom([]int{5, 8, 24}).Draw(t, "maxGlyphs"), MinGlyphs: 2, Layout: layout,
-			StemHeavy: rapid.Bool().Draw(t, "stemHeavy"), Names: names}).Draw(t, "font")
+			StemHeavy: rapid.Bool().Draw(t, "stemHeavy"), Names: names, NilMaxp: true}).Draw(t, "font")
 		f := c.Font
 		pristine := fontcmp.DeepCopy(f)
 		k := rapid.IntRange(2, 8).Draw(t, "nOps")
